@@ -623,6 +623,9 @@ func (m *SparseInt16Matrix) Import(filename string) error {
       values = append(values, int16(v))
     }
   }
+  if err := checkSparseMatrixIndices(rowIndices, colIndices, rows, cols); err != nil {
+    return err
+  }
   *m = *NewSparseInt16Matrix(rowIndices, colIndices, values, rows, cols)
   return nil
 }
@@ -655,6 +658,12 @@ func (obj *SparseInt16Matrix) UnmarshalJSON(data []byte) error {
   }
   if len(r.Index) != len(r.Value) {
     return fmt.Errorf("invalid sparse vector")
+  }
+  if r.Rows < 0 || r.Cols < 0 {
+    return fmt.Errorf("invalid sparse matrix: negative dimension")
+  }
+  if err := checkSparseIndices(r.Index, r.Rows*r.Cols); err != nil {
+    return err
   }
   obj.values = NewSparseInt16Vector(r.Index, r.Value, r.Rows*r.Cols)
   obj.rows = r.Rows
